@@ -16,18 +16,25 @@ Proof.
   rewrite none_sat_app. destruct (none_sep_or_at_split _ _ Nu) as [Nc _]. rewrite Nc. reflexivity.
 Qed.
 
-Lemma format_ssh_shape : forall k user host port path,
-    format (mk_ssh k user host port path)
+(* does Format print the port? *)
+Definition emits_port (fx : fixes) (user host : str) (port : N) (path : str) : bool :=
+  negb (port =? 0)
+  || (fx_port0 fx && (port_like_prefix path || is_docker_url (upart user ++ host ++ c_colon :: path))).
+
+Lemma format_ssh_shape : forall fx k user host port path,
+    format fx (mk_ssh k user host port path)
     = upart user ++ host ++ c_colon
-        :: (if port =? 0 then [] else N_to_dec port ++ [c_colon]) ++ path.
+        :: (if emits_port fx user host port path then N_to_dec port ++ [c_colon] else []) ++ path.
 Proof.
-  intros k user host port path. unfold format, format_ssh.
+  intros fx k user host port path. unfold format, format_ssh, emits_port.
   cbn [u_proto u_host u_user u_port u_path mk_ssh].
   assert (R1 : match user with [] => host | b :: l => (b :: l) ++ c_at :: host end = upart user ++ host).
   { destruct user; [reflexivity|]. cbn [upart]. rewrite <- app_assoc. reflexivity. }
-  rewrite R1. destruct (port =? 0).
-  - cbn [app]. rewrite <- app_assoc. reflexivity.
-  - rewrite <- !app_assoc. cbn [app]. rewrite <- ?app_assoc. reflexivity.
+  rewrite R1. rewrite <- !app_assoc.
+  destruct (negb (port =? 0)
+            || fx_port0 fx && (port_like_prefix path || is_docker_url (upart user ++ host ++ c_colon :: path))).
+  - rewrite <- !app_assoc. reflexivity.
+  - reflexivity.
 Qed.
 
 Lemma digit_not_slash : forall d, is_digit d = true -> d <> c_slash.
@@ -37,28 +44,39 @@ Lemma ssh_roundtrip : forall fx raw k u,
     fx_port0 fx = true ->
     is_docker_url raw = false -> is_scp_ssh_url raw k = true ->
     parse_ssh fx raw k = inr u ->
-    format u <> [] /\ is_docker_url (format u) = false
-    /\ is_scp_ssh_url (format u) k = true /\ parse_ssh fx (format u) k = inr u.
+    format fx u <> [] /\ is_docker_url (format fx u) = false
+    /\ is_scp_ssh_url (format fx u) k = true /\ parse_ssh fx (format fx u) k = inr u.
 Proof.
   intros fx raw k u F ND SC H.
   destruct (parse_ssh_inv _ _ _ _ H)
     as (user & host & port & pp & path & -> & -> & Nu & Nh & Hh & Hat & PSH & PK & D).
   rewrite format_ssh_shape.
-  set (pp' := if port =? 0 then [] else N_to_dec port ++ [c_colon]).
-  (* the port part of the formatted text denotes the same port *)
-  assert (PSH' : port_shape fx port pp' path /\ (port = 0 -> pp = [])
-                 /\ (port <> 0 -> exists d ds, pp' = d :: ds /\ is_digit d = true)).
-  { subst pp'. destruct PSH as [(-> & -> & PF)|(ds & -> & AD & PU & NZ)].
-    - cbn. split; [left; auto|]. split; [auto|]. intro C. contradiction.
-    - pose proof (NZ F) as NZ'. destruct (port =? 0) eqn:Z; [apply N.eqb_eq in Z; contradiction|].
-      destruct (port_dec_roundtrip port (parse_uint16_bound _ _ PU)) as (A1 & A2 & A3).
+  set (emit := emits_port fx user host port path).
+  set (pp' := if emit then N_to_dec port ++ [c_colon] else []).
+  assert (Hport : port <= 65535).
+  { destruct PSH as [(-> & _ & _)|(ds & _ & _ & PU)]; [lia|]. apply (parse_uint16_bound _ _ PU). }
+  (* the port part of the formatted text denotes the same port, and when the
+     port is left out the text is neither port-like nor Docker-like *)
+  assert (PSH' : port_shape port pp' path
+                 /\ (emit = false -> is_docker_url (upart user ++ host ++ c_colon :: path) = false)
+                 /\ (emit = true -> exists d ds, pp' = d :: ds /\ is_digit d = true)).
+  { subst pp'. destruct emit eqn:E.
+    - destruct (port_dec_roundtrip port Hport) as (A1 & A2 & A3).
       split; [|split].
       + right. exists (N_to_dec port). repeat split; auto.
-      + intro C. contradiction.
-      + intros _. destruct (N_to_dec port) as [|d ds'] eqn:E; [contradiction|].
+      + intro C. discriminate.
+      + intros _. destruct (N_to_dec port) as [|d ds'] eqn:E2; [contradiction|].
         exists d, (ds' ++ [c_colon]). split; [reflexivity|].
-        unfold all_digits in A1. cbn [forallb] in A1. apply andb_true_iff in A1 as [A1 _]. exact A1. }
-  destruct PSH' as (PSH' & Pz & Pnz).
+        unfold all_digits in A1. cbn [forallb] in A1. apply andb_true_iff in A1 as [A1 _]. exact A1.
+    - subst emit. unfold emits_port in E. rewrite F in E. cbn [andb] in E.
+      apply orb_false_iff in E as [E1 E2]. apply orb_false_iff in E2 as [E2 E3].
+      apply negb_false_iff in E1. apply N.eqb_eq in E1.
+      rewrite port_like_prefix_free in E2. apply negb_false_iff in E2.
+      split; [|split].
+      + left. auto.
+      + intros _. exact E3.
+      + intro C. discriminate. }
+  destruct PSH' as (PSH' & Pno & Pyes).
   assert (Npre : none_sat (byte_is c_colon) (upart user ++ host) = true).
   { rewrite none_sat_app, (upart_no_colon _ Nu), Nh. reflexivity. }
   assert (Hpath : k = KFwd -> path <> [] /\ (1 <= count c_colon path)%nat).
@@ -70,10 +88,10 @@ Proof.
   - (* not a Docker URL *)
     destruct user as [|u0 us].
     + cbn [upart app].
-      destruct (N.eq_dec port 0) as [Z|Z].
-      * subst pp'. rewrite Z. cbn [N.eqb app]. rewrite (Pz Z) in ND. cbn [upart app] in ND. exact ND.
-      * destruct (Pnz Z) as (d & ds & -> & Hd). cbn [app].
+      destruct emit eqn:E.
+      * destruct (Pyes eq_refl) as (d & ds & -> & Hd). cbn [app].
         apply docker_url_after_colon; [exact Nh | apply digit_not_slash; exact Hd].
+      * subst pp'. cbn [app]. apply (Pno eq_refl).
     + cbn [upart]. rewrite <- app_assoc.
       change ([c_at] ++ host ++ c_colon :: pp' ++ path) with (c_at :: host ++ c_colon :: pp' ++ path).
       apply docker_url_no_user. exact Nu.
@@ -102,7 +120,7 @@ Proof.
     as (user & host & port & pp & path & -> & _ & Nu & Nh & Hh & Hat & PSH & PK & D).
   unfold url_valid. cbn [u_proto u_kind u_host u_port u_env u_user u_path mk_ssh].
   assert (Hport : port <=? 65535 = true).
-  { apply N.leb_le. destruct PSH as [(-> & _ & _)|(ds & _ & _ & PU & _)]; [lia|].
+  { apply N.leb_le. destruct PSH as [(-> & _ & _)|(ds & _ & _ & PU)]; [lia|].
     apply (parse_uint16_bound _ _ PU). }
   assert (Hd : negb (fx_dash fx && (starts_with_dash user || starts_with_dash host)) = true).
   { destruct (fx_dash fx) eqn:F; [|reflexivity]. destruct (D eq_refl) as [-> ->]. reflexivity. }
@@ -118,8 +136,8 @@ Qed.
 Lemma docker_roundtrip : forall fx raw k env u,
     fx_duser fx = true ->
     parse_docker fx raw k env = inr u ->
-    format u <> [] /\ is_docker_url (format u) = true
-    /\ parse_docker fx (format u) k env = inr u.
+    format fx u <> [] /\ is_docker_url (format fx u) = true
+    /\ parse_docker fx (format fx u) k env = inr u.
 Proof.
   intros fx raw k env u F H.
   destruct (parse_docker_inv _ _ _ _ _ F H)
@@ -128,7 +146,7 @@ Proof.
                      (match k with KSync => docker_sync_path (c_slash :: t) | KFwd => t end) env).
   { destruct k; [exact Hu | destruct Hu as [-> _]; reflexivity]. }
   destruct (format_docker_parsed k user cont t env) as (t' & Ef & Et).
-  assert (Efmt : format u = docker_prefix ++ upart user ++ cont ++ split_of k :: t').
+  assert (Efmt : format fx u = docker_prefix ++ upart user ++ cont ++ split_of k :: t').
   { rewrite Eu. unfold format. cbn [u_proto mk_docker]. exact Ef. }
   rewrite Efmt.
   split; [discriminate|]. split; [apply docker_url_prefix|].
@@ -173,13 +191,13 @@ Definition mk_local (k : kind) (path : str) : url :=
 Lemma abs_nonempty : forall s, is_abs s = true -> s <> [].
 Proof. intros [|x t] H; [discriminate|discriminate]. Qed.
 
-Lemma local_roundtrip : forall raw k u,
+Lemma local_roundtrip : forall fx raw k u,
     is_docker_url raw = false -> is_scp_ssh_url raw k = false ->
     parse_local normalize raw k = inr u ->
-    format u <> [] /\ is_docker_url (format u) = false
-    /\ is_scp_ssh_url (format u) k = false /\ parse_local normalize (format u) k = inr u.
+    format fx u <> [] /\ is_docker_url (format fx u) = false
+    /\ is_scp_ssh_url (format fx u) k = false /\ parse_local normalize (format fx u) k = inr u.
 Proof.
-  intros raw k u ND NS H. unfold parse_local in H. destruct k.
+  intros fx raw k u ND NS H. unfold parse_local in H. destruct k.
   - destruct (normalize raw) as [n|] eqn:En; [|discriminate]. inversion H; subst u.
     unfold format. cbn [u_proto u_path].
     pose proof (normalize_abs _ _ En) as A.
@@ -241,17 +259,17 @@ Qed.
 Theorem parse_roundtrip : forall fx raw k env u,
     fx_port0 fx = true -> fx_duser fx = true ->
     parse normalize fx raw k env = inr u ->
-    parse normalize fx (format u) k env = inr u.
+    parse normalize fx (format fx u) k env = inr u.
 Proof.
   intros fx raw k env u F1 F2 H. unfold parse in H. destruct raw as [|x t]; [discriminate|].
   destruct (is_docker_url (x :: t)) eqn:DK.
   - destruct (docker_roundtrip _ _ _ _ _ F2 H) as (Hne & Hd & Hp).
-    unfold parse. destruct (format u); [contradiction|]. rewrite Hd. exact Hp.
+    unfold parse. destruct (format fx u); [contradiction|]. rewrite Hd. exact Hp.
   - destruct (is_scp_ssh_url (x :: t) k) eqn:SC.
     + destruct (ssh_roundtrip _ _ _ _ F1 DK SC H) as (Hne & Hd & Hs & Hp).
-      unfold parse. destruct (format u); [contradiction|]. rewrite Hd, Hs. exact Hp.
-    + destruct (local_roundtrip _ _ _ DK SC H) as (Hne & Hd & Hs & Hp).
-      unfold parse. destruct (format u); [contradiction|]. rewrite Hd, Hs. exact Hp.
+      unfold parse. destruct (format fx u); [contradiction|]. rewrite Hd, Hs. exact Hp.
+    + destruct (local_roundtrip fx _ _ _ DK SC H) as (Hne & Hd & Hs & Hp).
+      unfold parse. destruct (format fx u); [contradiction|]. rewrite Hd, Hs. exact Hp.
 Qed.
 
 (* ---------- the checker ---------- *)
@@ -261,7 +279,7 @@ Theorem check_C38_model_passes : forall fx raw k env,
     let out1 := parse normalize fx raw k env in
     check_C38 out1
       (match out1 with inr u => url_valid fx u | inl _ => false end)
-      (match out1 with inr u => parse normalize fx (format u) k env | inl e => inl e end) = true.
+      (match out1 with inr u => parse normalize fx (format fx u) k env | inl e => inl e end) = true.
 Proof.
   intros fx raw k env F1 F2. cbv zeta.
   destruct (parse normalize fx raw k env) as [e|u] eqn:E; [reflexivity|].
@@ -291,7 +309,7 @@ Definition duser_only : fixes := {| fx_port0 := false; fx_duser := true; fx_dash
 Definition refutes (fx : fixes) (raw : str) (k : kind) : Prop :=
   exists u u', parse no_normalize fx raw k [] = inr u
                /\ url_valid fx u = true
-               /\ parse no_normalize fx (format u) k [] = inr u'
+               /\ parse no_normalize fx (format fx u) k [] = inr u'
                /\ u' <> u.
 
 Lemma refuted_port_zero : refutes unfixed (B "host:0:22:foo") KSync.
@@ -325,11 +343,31 @@ Proof.
   split; [vm_compute; reflexivity|]. discriminate.
 Qed.
 
-Lemma fixed_rejects_witnesses :
-  parse no_normalize fixed_all (B "host:0:22:foo") KSync [] = inl EInvalidPort
-  /\ parse no_normalize fixed_all (B "docker:0://x/y") KSync [] = inl EInvalidPort
+(* with the repairs: the two port-zero witnesses parse as before (parsing is
+   unchanged) and now come back unchanged, because Format prints the zero port;
+   the Docker witness is rejected by the parser *)
+Lemma fixed_witnesses :
+  (exists u, parse no_normalize fixed_all (B "host:0:22:foo") KSync [] = inr u
+             /\ u_port u = 0 /\ u_path u = B "22:foo"
+             /\ format fixed_all u = B "host:0:22:foo"
+             /\ parse no_normalize fixed_all (format fixed_all u) KSync [] = inr u)
+  /\ (exists u, parse no_normalize fixed_all (B "docker:0://x/y") KSync [] = inr u
+                /\ u_proto u = PSSH
+                /\ format fixed_all u = B "docker:0://x/y"
+                /\ parse no_normalize fixed_all (format fixed_all u) KSync [] = inr u)
+  /\ (exists u, parse no_normalize fixed_all (B "host:00:path") KSync [] = inr u
+                /\ format fixed_all u = B "host:path"
+                /\ parse no_normalize fixed_all (format fixed_all u) KSync [] = inr u)
   /\ parse no_normalize fixed_all (B "docker://@a@b/p") KSync [] = inl EEmptyUser.
-Proof. vm_compute. repeat split; reflexivity. Qed.
+Proof.
+  split; [|split; [|split]]; try (vm_compute; reflexivity);
+    eexists; (split; [vm_compute; reflexivity|]); repeat split; vm_compute; reflexivity.
+Qed.
+
+(* each of the two conditions of the format rule is needed: with only the
+   port-like-prefix test the Docker-looking text is still printed without its
+   port, and vice versa (the witnesses above, under the code as it is, are the
+   two cases) *)
 
 (* non-vacuity: URLs of all three protocols and both kinds that parse with the
    repairs in place, with a port, a user, a Windows path, a normalized socket *)
@@ -347,12 +385,12 @@ Qed.
 
 Lemma parse_examples :
   (exists u, parse demo_normalize fixed_all (B "user@example.com:0022:~/proj") KSync [] = inr u
-             /\ u_port u = 22 /\ format u = B "user@example.com:22:~/proj")
+             /\ u_port u = 22 /\ format fixed_all u = B "user@example.com:22:~/proj")
   /\ (exists u, parse demo_normalize fixed_all (B "DOCKER://root@box/~C:\data") KSync
                       [(B "DOCKER_HOST", B "tcp://h:1")] = inr u
-                /\ u_path u = B "C:\data" /\ format u = B "docker://root@box/C:\data")
+                /\ u_path u = B "C:\data" /\ format fixed_all u = B "docker://root@box/C:\data")
   /\ (exists u, parse demo_normalize fixed_all (B "unix:run/s.sock") KFwd [] = inr u
-                /\ format u = B "unix:/run/s.sock")
+                /\ format fixed_all u = B "unix:/run/s.sock")
   /\ (exists u, parse demo_normalize fixed_all (B "h:tcp:localhost:80") KFwd [] = inr u
                 /\ u_proto u = PSSH).
 Proof.
